@@ -37,6 +37,8 @@ CLAIMED.update({
                 ref='DESIGN.md §3 C13', note=NOTE + '; renderPixel and the sprite scan are replaced by no-ops here (their frame condition is checked in C15)'),
     'C14': dict(text='one machine cycle from every LCD timing state (inductive invariant of C13), every LYC, each single STAT source / none / any combination: VBlank requested iff line 144 begins, STAT requested iff the enabled source has its rising edge, nothing requested while off, other IF bits and IE untouched, register writes request nothing',
                 ref='DESIGN.md §3 C14', note=NOTE + '; renderPixel and the sprite scan are replaced by no-ops here (their frame condition is checked in C15)'),
+    'C17': dict(text='three inductive pieces: (A) every OAM operation from every state with the corruption window closed changes no OAM byte except the CPU-written byte / the current DMA byte and opens the window only via EnterMode2; (B) window open => LCD on and mode 2, established by New and preserved by every machine cycle and every LCDC write at every point of the frame; (C) every opcode (quick: the 42 pointer-moving/memory ones; thorough: all 501) and interrupt dispatch with every register/SP value leave all 160 OAM bytes and the window state unchanged when the window is closed',
+                ref='DESIGN.md §3 C17', note=NOTE + '; part C uses the flat memory stub (direct CPU writes through the decoder are part A + C06/C07)'),
 })
 
 NA_REASON = {
